@@ -557,7 +557,7 @@ func main() {
 	acc.Sample(map[string]any{"alphabet_size": len(alphabet), "example_ops": []string{alphabet[0].String(), alphabet[5].String(), alphabet[30].String(), alphabet[100].String()}, "depth_full_alphabet": depth, "depth_narrow_alphabet": deep, "impls": c.Impls}, 3)
 	os.Exit(acc.Done(ev.Finish{
 		Prop: "C12", Tier: *tier, Level: "model_checking", Start: start,
-		Rule:        "explicit-state BFS over valid histories of Create, Append, Close, Open, ReadAt (offsets 0,1,L-1,L,L+1 x lengths 0,1,L,L+1), Delete, Link, AtomicCreate, List on dirs {d,d2} (one directory name a prefix of the other), names {f,g}, data {\"\",\"a\",\"bc\",5000 bytes}, 3 handle slots (full alphabet to the first depth bound; a reduced alphabet -- one data value, whole-file reads, no List -- to a deeper bound); an operation is enabled only when its documented precondition holds in the reference model; every history replayed on fresh real MemFs and DirFs (over simunix), directly and through the package-level wrappers; passed buffers and returned slices are overwritten by the caller after each call; after the last operation its result, every open read handle and a full read-back of both directories are compared with the reference model; the simunix trace of every history is replayed on the real kernel; plus a size sweep: files of every size on a grid around 4 KiB / 64 KiB (/ 1 MiB thorough), written whole, atomically or in pieces, read back at every grid offset x grid length; plus the full alphabet to depth 2 with one directory spelled \"d2/\" and \"./d\" throughout",
+		Rule:        "explicit-state BFS over valid histories of Create, Append, Close, Open, ReadAt (offsets 0,1,L-1,L,L+1 x lengths 0,1,L,L+1), Delete, Link, AtomicCreate, List on dirs {d,d2} (one directory name a prefix of the other), names {f, f.tmp}, data {\"\",\"a\",\"bc\",5000 bytes}, 3 handle slots (full alphabet to the first depth bound; a reduced alphabet -- one data value, whole-file reads, no List -- to a deeper bound); an operation is enabled only when its documented precondition holds in the reference model; every history replayed on fresh real MemFs and DirFs (over simunix), directly and through the package-level wrappers; passed buffers and returned slices are overwritten by the caller after each call; after the last operation its result, every open read handle and a full read-back of both directories are compared with the reference model; the simunix trace of every history is replayed on the real kernel; plus a size sweep: files of every size on a grid around 4 KiB / 64 KiB (/ 1 MiB thorough), written whole, atomically or in pieces, read back at every grid offset x grid length; plus the full alphabet to depth 2 with one directory spelled \"d2/\" and \"./d\" throughout",
 		Assumptions: []string{"simunix models the kernel for DirFs (validated per history by replay on the real kernel)", "state identity = reference-model state (names, link structure, contents, slots); merging is justified by the full read-back equality checked on every transition"},
 	}))
 }
